@@ -130,7 +130,7 @@ func checkC13(ctx *Ctx) {
 
 	// random programs with expired-but-present keys, malformed arguments, wrong types
 	gens := allGens()
-	n := ctx.N(500, 10000)
+	n := ctx.N(1500, 15000)
 	parallel(n, runtime.NumCPU(), func(i int) {
 		r := rand.New(rand.NewSource(ctx.Seed*6_000_011 + int64(i)))
 		in := lightInst()
